@@ -36,6 +36,14 @@ SwapCall(h) ==
   /\ store' = Append(store, SwapObj(store[h]))
   /\ last' = [op |-> "swap", h |-> h, shape |-> <<>>, arg |-> <<>>]
 
+(* the caller assigns new easy-sample counts to the public attributes of a live    *)
+(* object: the only action that CHANGES an object of the store                     *)
+SetEasy(h, ep, en) ==
+  /\ calls < MaxCalls /\ calls' = calls + 1 /\ h \in DOMAIN store
+  /\ <<ep, en>> # <<store[h].ep, store[h].en>>
+  /\ store' = [store EXCEPT ![h] = [@ EXCEPT !.ep = ep, !.en = en]]
+  /\ last' = [op |-> "set_easy", h |-> h, shape |-> <<>>, arg |-> <<ep, en>>]
+
 (* argument arrays: instead of every array over the value set (9^n of them) the  *)
 (* machine picks a (seed, stride) pair and fills the array with the values        *)
 (* vals[(seed + i*stride) mod |vals|] - enough to vary content, cheap to enumerate *)
@@ -48,10 +56,18 @@ ArgsFor(op, shape) ==
 SNext == \/ \E h \in DOMAIN store, op \in QueryOps, shape \in Shapes :
               (op \in ScalarOps => shape = <<>>) /\ \E arg \in ArgsFor(op, shape) : Query(h, op, shape, arg)
          \/ \E h \in DOMAIN store : SwapCall(h)
+         \/ \E h \in DOMAIN store, ep \in {0, 2}, en \in {0, 1, 3} : SetEasy(h, ep, en)
 SSpec == SInit /\ [][SNext]_svars
 
 (* C10 as an action property of the specification itself                          *)
 IsQuery == last'.op \in QueryOps
 QueriesAreSideEffectFree == [][IsQuery => UNCHANGED store]_svars
-StoreOnlyGrows == [][\A h \in DOMAIN store : h \in DOMAIN store' /\ store'[h] = store[h]]_svars
+StoreOnlyGrows == [][\A h \in DOMAIN store : h \in DOMAIN store' /\
+                         (store'[h] = store[h] \/ (last'.op = "set_easy" /\ last'.h = h))]_svars
+(* an attribute assignment changes exactly the assigned fields of exactly that object   *)
+SetEasyIsLocal == [][last'.op = "set_easy" /\ last' # last =>
+                       /\ Len(store') = Len(store)
+                       /\ \A h \in DOMAIN store :
+                            /\ store'[h].pos = store[h].pos /\ store'[h].neg = store[h].neg
+                            /\ store'[h].sc = store[h].sc /\ store'[h].ec = store[h].ec]_svars
 =============================================================================
